@@ -224,6 +224,14 @@ def find_bodystream(ctx):
                and ") -> std::task::Poll<" in (f.get("sig") or "") and "fn(std::pin::Pin<&" in (f.get("sig") or "")]
         if len(pn2) > 1:
             raise FailClosed("several inherent poll functions on the body stream enum: %s" % pn2)
+        if not pn2:
+            # the variant dispatch written directly into the public body's `poll_frame` (one layer instead of two)
+            for a in ctx.facts.adts.values():
+                if a["local"] and a["kind"] == "struct" and "Proj" not in a["path"] and \
+                        any(f["ty"].startswith(e["path"]) for f in a["variants"][0]["fields"]):
+                    pn2 += impl_fn(ctx, "http_body::Body", a["path"], "poll_frame")
+            if len(pn2) != 1:
+                pn2 = []
     return e, pn2[0] if pn2 else None
 
 
